@@ -1,7 +1,8 @@
 //! C13: fuel.  Input line: prog n m k B fr ev...   (fr and the events are for the model; ignored here)
 //!   B = -1: no fuel configured.
 //! Output:  Ok   -> 0 same det consumed remaining np (c_i r_i)*     (consumed = remaining = -1 when fuel is off)
-//!          Err  -> 1 kind det np (c_i r_i)* [-7 top]
+//!          Err  -> 1 kind det np (c_i r_i)* -8 eq pre [-7 top]
+//!                  eq / pre: the output written before the error equals / is a prefix of what the render without fuel wrote
 //!                  kind = ErrorKind of the root cause (innermost minijinja::Error of the source chain);
 //!                  when the error returned to the host has another kind (an include / super() wrapper),
 //!                  that kind follows the marker -7
@@ -25,6 +26,8 @@ struct Run {
     res: Result<String, (i64, i64)>, // Err((root kind, top kind))
     levels: Option<(u64, u64)>,
     probes: Vec<(u64, u64)>,
+    /// what reached the output sink (all of it for a successful render, the part written before the error otherwise)
+    written: String,
 }
 
 fn render_once(prog: i64, progs: &[(String, String)], n: i64, m: i64, k: i64, fuel: Option<u64>) -> Run {
@@ -45,14 +48,17 @@ fn render_once(prog: i64, progs: &[(String, String)], n: i64, m: i64, k: i64, fu
         String::new()
     });
     install(&mut env, prog);
+    install_limits(&mut env, prog, n);
     env.set_fuel(fuel);
     let ctx = ctx(n, m, k);
     let tmpl = env.get_template("main").expect("main");
-    let r = tmpl.render_captured(ctx);
+    let mut sink: Vec<u8> = Vec::new();
+    let r = tmpl.render_captured_to(ctx, &mut sink);
+    let written = String::from_utf8_lossy(&sink).into_owned();
     let (res, levels) = match r {
         Ok(cap) => {
             let l = cap.state().fuel_levels();
-            (Ok(cap.into_output()), l)
+            (Ok(written.clone()), l)
         }
         Err(e) => {
             let top = err_code(e.kind());
@@ -68,7 +74,7 @@ fn render_once(prog: i64, progs: &[(String, String)], n: i64, m: i64, k: i64, fu
         }
     };
     let probes = probes.lock().unwrap().clone();
-    Run { res, levels, probes }
+    Run { res, levels, probes, written }
 }
 
 fn main() {
@@ -124,6 +130,10 @@ fn main() {
             out.push(b.to_string());
         }
         if let Err((root, top)) = &r1.res {
+            // -8 eq pre: the output written before the error equals / is a prefix of what the unlimited render wrote
+            out.push("-8".into());
+            out.push(((r1.written == free.written) as i64).to_string());
+            out.push((free.written.starts_with(&r1.written) as i64).to_string());
             if root != top {
                 out.push("-7".into());
                 out.push(top.to_string());
